@@ -35,6 +35,13 @@ func registerExtras() {
 	propertyRules["C15"] = append(propertyRules["C15"], ruleBlockComplete)
 	propertyRules["C07"] = append(propertyRules["C07"], ruleVerifyKey)
 	propertyRules["C08"] = append(propertyRules["C08"], ruleVerifyKey)
+	// the quorum is only as good as its uses: every progress decision compares its count with M in normal form (a site
+	// that spells its own threshold, e.g. 2F, is a different quorum for N != 3F+1) — seed C06r3-3
+	propertyRules["C06"] = append(propertyRules["C06"], ruleAccept, rulePreAccept, ruleCommitQuorum, ruleViewQuorum, ruleResponderWindow, ruleDefs)
+	propertyRules["C01"] = append(propertyRules["C01"], ruleCommitQuorum)
+	propertyRules["C08"] = append(propertyRules["C08"], rulePhaseProgress, ruleNoIdleCV, ruleForce)
+	propertyRules["C09"] = append(propertyRules["C09"], rulePhaseProgress)
+	propertyRules["C07"] = append(propertyRules["C07"], rulePhaseProgress)
 }
 
 // L1-OBL: the state lemma "own (pre)commit / own preparation ⇒ proposal recorded" is an invariant: every non-nil store
